@@ -1,0 +1,23 @@
+//go:build verif
+
+package base
+
+// Contracts for the verification machinery in /verif (comment-only file; compiled
+// only with -tags verif and adds no code).
+
+//@ # ---- C05: the comparators that make map contents deterministic ----
+//@ # A comparator used to sort the values of a map must be a total order that separates
+//@ # distinct elements; then the sorted slice is a function of the map's value set.
+//@ func ti/base.GetSortedTSignatures$1
+//@   safe
+//@   ensures[C05] result == 0 ==> a == b
+//@   ensures[C05] (result < 0) == (selfcall(b, a) > 0)
+//@   ensures[C05] forall(c, "ti/base.Sig", result < 0 && selfcall(b, c) < 0 ==> selfcall(a, c) < 0)
+//@   witness post:0.0#0 "class A\n  def x\n    1\n  end\n\n  def self.x\n    \"s\"\n  end\nend\na = A.new\na.x\n" args "--hover --row=11" expect-varies "16"
+
+//@ func ti/base.GetSortedTSignaturesByClass$1
+//@   safe
+//@   ensures[C05] result == 0 ==> a == b
+//@   ensures[C05] (result < 0) == (selfcall(b, a) > 0)
+//@   ensures[C05] forall(c, "ti/base.Sig", result < 0 && selfcall(b, c) < 0 ==> selfcall(a, c) < 0)
+//@   witness post:0.0#0 "class A\n  def x\n    1\n  end\n\n  def self.x\n    \"s\"\n  end\nend\n" args "--llm-define" expect-varies "6"
